@@ -15,6 +15,18 @@ import (
 // Part B (partb_test.go): antispam, all operation sequences up to a depth, real Antispammer.
 // Part C (partc_test.go): exception rule sets x data strings, real IsSpam vs naive matcher.
 
+// sample keeps at most two explored cases per part and shard (the engine's own sampler would keep only the
+// first part's cases).
+var sampled = map[string]int{}
+
+func sample(r *vreport.Run, part string, x any) {
+	if sampled[part] >= 2 {
+		return
+	}
+	sampled[part]++
+	r.R.Samples = append(r.R.Samples, x)
+}
+
 type partOnly struct {
 	Part string `json:"part"`
 }
